@@ -195,6 +195,7 @@ type expectation struct {
 	str       *string
 	fstr      *float64 // string target from a float: must parse back to this float
 	exactv    *big.Int // string target, text routes: a numeral whose exact value is this integer
+	neighbour *big.Int // mErr, text routes: the integer value of the float64 next to an integer no 64 bit type holds
 	b         *bool
 	real      *big.Float // Duration from float seconds: exact real nanoseconds
 	realTol   bool       // accept |stored-real| < 1ns
